@@ -137,6 +137,27 @@ def r_krum(c):
     D = np.asarray(arr(c["dist"]), dtype=float)
     m = D.shape[0]
     f, k = int(c["f"]), int(c["k"])
+    if c.get("cdist_mm"):
+        # the model saw torch.cdist called in a mode that switches to the matrix-multiplication formula beyond 25 rows: the witness has to be a
+        # LARGE float32 matrix whose rows share a big common component (where that formula cancels), compared with an exact float64 selection
+        bad = []
+        for (mm_, nn_, ff, kk, seed) in [(30, 6, 2, 1, 0), (30, 6, 2, 3, 1), (40, 10, 3, 1, 2), (26, 4, 1, 2, 3)]:
+            rng = np.random.default_rng(seed)
+            dev = rng.standard_normal((mm_, nn_))
+            dev[:kk] *= 0.05
+            Jb = 3000.0 + dev
+            Jb[-ff:] = -1e6 * rng.random((ff, nn_))
+            Jb = Jb.astype(np.float32)
+            Dd = np.sqrt(((Jb.astype(np.float64)[:, None, :] - Jb.astype(np.float64)[None, :, :]) ** 2).sum(-1))
+            sc = np.array([np.sort(np.delete(Dd[i], i))[:mm_ - ff - 2].sum() for i in range(mm_)])
+            order = np.argsort(sc)
+            if sc[order[kk]] - sc[order[kk - 1]] < 0.1:
+                continue  # near-tie: no witness
+            wts = Krum(n_byzantine=ff, n_selected=kk).weighting(torch.tensor(Jb)).numpy()
+            sel = sorted(int(i) for i in np.nonzero(wts > 0)[0])
+            if sel != sorted(int(i) for i in order[:kk]):
+                bad.append(f"{mm_} x {nn_} float32 rows 3000 + N(0,1), f={ff}, k={kk}: selected rows {sel}, smallest scores are rows {sorted(int(i) for i in order[:kk])}")
+        return dict(reproduced=bool(bad), why=bad[:3], how="large float32 matrices with a common offset (torch.cdist's matrix-multiplication mode)")
     X = dist_to_matrix(D)
     A = Krum(n_byzantine=f, n_selected=k)
     if X is not None:
